@@ -17,7 +17,10 @@
   (every level of a dotted name is copied before it is written) and `$unwind`
   (`includeArrayIndex`), the table keeps the old behaviour expressible so that a regression shows
   as a different table):
-    * `aggregate` (collection.py:1826-1828) works on `find()` copies (deep, new objects);
+    * `aggregate` works on `find()` copies (deep, new objects) and on a REBUILT pipeline: every
+      dict and list of the caller's pipeline object is built anew before the stages see it
+      (`pipelineCopy`; the stages used to read — and, under the former disciplines, write — the
+      caller's own object: `.none`);
     * `$match/$sort/$skip/$limit/$sample` hand on the same document objects in a new list;
     * `$sample` reads `size` from the caller's option dict (it used to POP it: `samplePops`);
     * `$addFields/$set`: `dict(doc)` (shallow), and along a dotted name EVERY level is a
@@ -26,17 +29,18 @@
       to descend into the SHARED sub-document and write there: `addFieldsNested` = `.none`);
     * `$lookup` (1154-1164) writes `doc[as]` into the input document itself, the joined documents
       are `find()` copies;
-    * `$unwind` deep-copies the document once per element and keeps the COPY's own element (it
-      used to re-attach the ORIGINAL element: `unwindItem` = `.none`); a value that is no array
-      is still re-attached as it is; a document kept by
+    * `$unwind` deep-copies the document once per element and keeps the COPY's own element — or
+      the copy's own value where the field holds no array (it used to re-attach the ORIGINAL
+      element / value: `unwindItem` = `.none`); a document kept by
       `preserveNullAndEmptyArrays` is handed on as it is, unless an `includeArrayIndex` is to be
       written: then it is a deep copy that receives the (null) index (`unwindIndexed`); the
       sub-documents a dotted index name goes through are created inside the copy;
     * `$project/$replaceRoot/$count` build new top-level documents around shared values;
-    * expressions: a field path / `$$ROOT` evaluates to the very sub-object, `$literal` and
-      constant lists to a deep copy of the pipeline's object (they used to evaluate to the
-      PIPELINE's own object: `literal`, `constArray` = `.none`), a document constructor to a new
-      dict;
+    * expressions: a field path / `$$ROOT` evaluates to the very sub-object, `$literal` to a deep
+      copy of the pipeline's object (it used to evaluate to the PIPELINE's own object: `literal`
+      = `.none`), a document constructor to a new dict, an array to a new list of its evaluated
+      items, null where an item is missing (`arrayConst` = `.evaluated`; it used to be handed
+      out as a constant: a copy of the pipeline's list, or that list itself);
     * `$facet` hands every sub-pipeline its own deep copy of the stage's input (it used to hand
       ONE list to all of them: `facetSharesInput`);
     * `$out` (1573-1580): drop the target if non-empty, `insert_many` (stores copies, writes the
@@ -218,10 +222,20 @@ def Copy.runL (c : Copy) : List HV → Nat → List HV × Nat
 
 /-! ### the edit discipline -/
 
+/-- an array in expression position: a new list of its evaluated items, or (formerly) the
+    pipeline's list handed out as a constant by some copy -/
+inductive ArrConst where
+  | evaluated
+  | copied (c : Copy)
+  deriving DecidableEq, Repr, Inhabited
+
 /-- The facts about mongomock/aggregate.py + collection.py the model depends on. -/
 structure Disc where
   /-- `aggregate`: how the stored documents enter the pipeline (`self.find()` → deep) -/
   source : Copy
+  /-- `aggregate`: how the caller's pipeline object reaches the stages (every dict and list
+      rebuilt → deep; `.none` = the stages are handed the caller's own object) -/
+  pipelineCopy : Copy
   /-- `$lookup`: how the foreign documents enter the result (`foreign_collection.find` → deep) -/
   lookupForeign : Copy
   /-- `$lookup` assigns `doc[as]` on the input document (true) rather than on a copy -/
@@ -233,8 +247,9 @@ structure Disc where
   addFieldsNested : Copy
   /-- `$unwind`: the per-element copy of the document (`copy.deepcopy` → deep) -/
   unwindDoc : Copy
-  /-- `$unwind`: the array element an output document holds (`.deep`: the element of the output
-      document's own deep copy; `.none`: the ORIGINAL element, shared with the stage's input) -/
+  /-- `$unwind`: the array element (or the value that is no array) an output document holds
+      (`.deep`: the one of the output document's own deep copy; `.none`: the ORIGINAL one,
+      shared with the stage's input) -/
   unwindItem : Copy
   /-- `$unwind` with `includeArrayIndex`: how a document KEPT by `preserveNullAndEmptyArrays` is
       taken before the (null) index is written into it (`copy.deepcopy` → deep) -/
@@ -245,23 +260,24 @@ structure Disc where
   facetSharesInput : Bool
   /-- `$literal`: how the operand (an object of the pipeline) is handed out -/
   literal : Copy
-  /-- an array constant in expression position: how the pipeline's list is handed out -/
-  constArray : Copy
+  /-- an array in expression position -/
+  arrayConst : ArrConst
   /-- `$out`: `insert_many` stores copies of the documents (deep), not the objects -/
   outStores : Copy
   deriving DecidableEq, Repr, Inhabited
 
 /-- the discipline of /repo as read (see the header); `Generated.AggDiscipline` is compared with it -/
 def Disc.reference : Disc :=
-  { source := .deep, lookupForeign := .deep, lookupWritesInput := true, addFieldsTop := .shallow,
+  { source := .deep, pipelineCopy := .deep, lookupForeign := .deep, lookupWritesInput := true, addFieldsTop := .shallow,
     addFieldsNested := .shallow, unwindDoc := .deep, unwindItem := .deep, unwindIndexed := .deep,
     samplePops := false,
-    facetSharesInput := false, literal := .deep, constArray := .deep, outStores := .deep }
+    facetSharesInput := false, literal := .deep, arrayConst := .evaluated, outStores := .deep }
 
 /-- the discipline before the repairs (kept for the regression witnesses of Props/C16.lean) -/
 def Disc.unrepaired : Disc :=
   { Disc.reference with samplePops := true, facetSharesInput := true, literal := .none,
-                        constArray := .none, addFieldsNested := .none, unwindItem := .none }
+                        arrayConst := .copied .none, addFieldsNested := .none, unwindItem := .none,
+                        pipelineCopy := .none }
 
 /-- the reference discipline WITHOUT the per-branch copy of `$facet`: what the stages' own
     discipline gives when every sub-pipeline is handed the same list -/
@@ -275,6 +291,9 @@ structure World where
   idx : List (String × List String)
   /-- the caller's pipeline object -/
   pipe : HV
+  /-- the pipeline the stages read: the call's rebuilt copy of `pipe` (or `pipe` itself under a
+      discipline that hands the caller's object on) -/
+  cpipe : HV
   /-- lists kept alive by enclosing `$facet`s: the stage's input, then the finished branches -/
   stack : List (List HV)
   /-- `in_collection` of the running stage -/
@@ -310,6 +329,7 @@ def mutateColls (id : Id) (f : Kids → Kids) : List (String × List HV) → Lis
 /-- an in-place write: the object is rewritten everywhere -/
 def World.mutate (id : Id) (f : Kids → Kids) (w : World) : World :=
   { w with colls := mutateColls id f w.colls, pipe := AggHeap.mutate id f w.pipe,
+           cpipe := AggHeap.mutate id f w.cpipe,
            stack := mutateLL id f w.stack, work := mutateL id f w.work, out := mutateL id f w.out }
 
 def getColl (name : String) : List (String × List HV) → List HV
@@ -328,7 +348,7 @@ inductive AExpr where
   | field (path : List String)           -- "$a.b": the sub-object itself
   | root                                  -- "$$ROOT": the document itself
   | lit (loc : List Nat)                  -- `$literal`: the pipeline's object at `loc`, handed out by `Disc.literal`
-  | carr (loc : List Nat)                 -- constant list: the pipeline's object at `loc`, by `Disc.constArray`
+  | carr (loc : List Nat) (items : List (String × AExpr))  -- [e, …]: by `Disc.arrayConst` a new list of the evaluated items, or the pipeline's list at `loc`
   | obj (kids : List (String × AExpr))    -- {k: e, …}: a new dict
   | unmodelled
   deriving Inhabited
@@ -380,23 +400,36 @@ mutual
       match subAt loc pipe with
       | some v => .ok (some (D.literal.run v n).1, (D.literal.run v n).2)
       | none => .ok (none, n)
-    | .carr loc, n =>
-      match subAt loc pipe with
-      | some v => .ok (some (D.constArray.run v n).1, (D.constArray.run v n).2)
-      | none => .ok (none, n)
+    | .carr loc items, n =>
+      match D.arrayConst with
+      | .copied c =>
+        match subAt loc pipe with
+        | some v => .ok (some (c.run v n).1, (c.run v n).2)
+        | none => .ok (none, n)
+      | .evaluated =>
+        match evalKids D pipe doc true items (n + 1) with
+        | .ok (ks, n') => .ok (some (.node (.tmp n) false ks), n')
+        | .error e => .error e
     | .obj kids, n =>
-      match evalKids D pipe doc kids (n + 1) with
+      match evalKids D pipe doc false kids (n + 1) with
       | .ok (ks, n') => .ok (some (.node (.tmp n) true ks), n')
       | .error e => .error e
     | .unmodelled, _ => .error .unmodelled
-  def evalKids (D : Disc) (pipe doc : HV) : List (String × AExpr) → Nat → R (Kids × Nat)
+  /-- the fields of a document constructor (a missing value: the field is skipped) or the items
+      of an array (`nullMissing`: a missing value gives a null item) -/
+  def evalKids (D : Disc) (pipe doc : HV) (nullMissing : Bool) : List (String × AExpr) → Nat → R (Kids × Nat)
     | [], n => .ok ([], n)
     | (k, e) :: r, n =>
       match evalExpr D pipe doc e n with
       | .error err => .error err
-      | .ok (none, n') => evalKids D pipe doc r n'          -- missing keys are skipped
+      | .ok (none, n') =>
+        if nullMissing then
+          match evalKids D pipe doc nullMissing r n' with
+          | .ok (ks, n'') => .ok ((k, .atom .null) :: ks, n'')
+          | .error err => .error err
+        else evalKids D pipe doc nullMissing r n'
       | .ok (some v, n') =>
-        match evalKids D pipe doc r n' with
+        match evalKids D pipe doc nullMissing r n' with
         | .ok (ks, n'') => .ok ((k, v) :: ks, n'')
         | .error err => .error err
 end
@@ -472,7 +505,7 @@ def addField (D : Disc) (w : World) (path : List String) (e : AExpr) : Nat → N
     match w.work[j]? with
     | none => .ok w
     | some inDoc =>
-      match evalExpr D w.pipe inDoc e w.nextTmp with
+      match evalExpr D w.cpipe inDoc e w.nextTmp with
       | .error err => .error err
       | .ok (none, n') => addField D { w with nextTmp := n' } path e fuel (j + 1)
       | .ok (some v, n') =>
@@ -557,6 +590,12 @@ def unwoundItem (D : Disc) (key : String) (i : Nat) (c item : HV) : HV :=
   | .none => item
   | _ => (itemAt key i c).getD item
 
+/-- the value that is no array, as the one output document holds it -/
+def unwoundValue (D : Disc) (key : String) (c other : HV) : HV :=
+  match D.unwindItem with
+  | .none => other
+  | _ => (c.get key).getD other
+
 /-- one output document per element: a copy of the document holding its element alone, with the
     element's position when an index is asked for -/
 def unwindItems (D : Disc) (key : String) (idx : Option (List String)) (doc : HV) :
@@ -573,15 +612,15 @@ def unwindItems (D : Disc) (key : String) (idx : Option (List String)) (doc : HV
           (unwoundItem D key i (D.unwindDoc.run doc n).1 item)) (D.unwindDoc.run doc n).2).2).2)
 
 /-- an index name that goes through the unwound field itself is followed INTO what the output
-    document holds there: the model follows it only where that is private to the output document
-    — an element of its own copy; a value that is no array (a sub-document re-attached as it
-    is), or any element under the former discipline, is an object of the stage's input -/
+    document holds there: private to the output document when that is its own copy's; under the
+    former discipline it is an object of the stage's input, and the model does not follow -/
 def indexEntersInput (D : Disc) (key : String) (idx : Option (List String)) (docs : List HV) : Bool :=
   match idx with
   | some (k :: _ :: _) =>
-    k == key && docs.any (fun d => match d.get key with
-      | some (.node _ true _) => true
-      | some (.node _ false _) => (match D.unwindItem with | .none => true | _ => false)
+    k == key && (match D.unwindItem with
+      | .none => docs.any (fun d => match d.get key with
+          | some (.node ..) => true
+          | _ => false)
       | _ => false)
   | _ => false
 
@@ -599,8 +638,10 @@ def unwindDoc (D : Disc) (key : String) (preserve : Bool) (idx : Option (List St
   | some (.node _ false items) => unwindItems D key idx doc items 0 n
   | some other =>
     -- a value that is no array is one element without a position
-    ([(setIndex idx .null ((D.unwindDoc.run doc n).1.setLocal key other) (D.unwindDoc.run doc n).2).1],
-     (setIndex idx .null ((D.unwindDoc.run doc n).1.setLocal key other) (D.unwindDoc.run doc n).2).2)
+    ([(setIndex idx .null ((D.unwindDoc.run doc n).1.setLocal key
+          (unwoundValue D key (D.unwindDoc.run doc n).1 other)) (D.unwindDoc.run doc n).2).1],
+     (setIndex idx .null ((D.unwindDoc.run doc n).1.setLocal key
+          (unwoundValue D key (D.unwindDoc.run doc n).1 other)) (D.unwindDoc.run doc n).2).2)
 
 def unwindAll (D : Disc) (key : String) (preserve : Bool) (idx : Option (List String)) :
     List HV → Nat → List HV × Nat
@@ -619,7 +660,7 @@ def projectDoc (D : Disc) (pipe : HV) (noId : Bool) (incl : List String) (comput
     (doc : HV) (n : Nat) : R (HV × Nat) :=
   match doc with
   | .node _ true kids =>
-    match evalKids D pipe doc computed (n + 1) with
+    match evalKids D pipe doc false computed (n + 1) with
     | .error e => .error e
     | .ok (ks, n') =>
       let keep := projKeep (if noId then incl else incl ++ ["_id"]) kids
@@ -692,7 +733,7 @@ def outStage (D : Disc) (sem : Sem) (target : String) (w : World) : R World :=
 
 /-- `$sample` (1354-1364) -/
 def sampleStage (D : Disc) (sem : Sem) (loc : List Nat) (w : World) : R World :=
-  match subAt loc w.pipe with
+  match subAt loc w.cpipe with
   | some (.node id true kids) =>
     let w' := if D.samplePops then w.mutate id (kdel "size") else w
     match kget "size" kids with
@@ -726,7 +767,7 @@ mutual
         | .ok w' => .ok { w' with work := w'.out, out := [] }
         | .error e => .error e
     | .project noId incl computed =>
-      match projectAll D w.pipe noId incl computed w.work w.nextTmp with
+      match projectAll D w.cpipe noId incl computed w.work w.nextTmp with
       | .ok (vs, n) => .ok { w with work := vs, nextTmp := n }
       | .error e => .error e
     | .unwind key preserve idx =>
@@ -740,7 +781,7 @@ mutual
         .ok { w with work := r.1, nextTmp := r.2 }
     | .lookup frm loc frn as => lookupAll D sem frm loc frn as w w.work.length 0
     | .replaceRoot e =>
-      match replaceRootAll D w.pipe e w.work w.nextTmp with
+      match replaceRootAll D w.cpipe e w.work w.nextTmp with
       | .ok (vs, n) => .ok { w with work := vs, nextTmp := n }
       | .error err => .error err
     | .count name =>
@@ -797,7 +838,7 @@ mutual
       else if isDollar s then .field (splitDots (String.ofList (s.toList.drop 1)))
       else .const (.str s)
     | .atom v => .const v
-    | .node _ false _ => .carr loc
+    | .node _ false kids => .carr loc (parseExprKids loc 0 kids)
     | .node _ true [(k, v)] =>
       if k == "$literal" then .lit (loc ++ [0])
       else if isDollar k then .unmodelled
@@ -943,9 +984,10 @@ structure State where
   deriving Inhabited
 
 def State.world (D : Disc) (s : State) (coll : String) : World :=
-  let src := D.source.runL (getColl coll s.colls) 0
-  { colls := s.colls, idx := s.idx, pipe := s.pipe, stack := [], work := src.1, out := [],
-    nextTmp := src.2, nextSt := s.nextSt }
+  let pc := D.pipelineCopy.run s.pipe 0
+  let src := D.source.runL (getColl coll s.colls) pc.2
+  { colls := s.colls, idx := s.idx, pipe := s.pipe, cpipe := pc.1, stack := [], work := src.1,
+    out := [], nextTmp := src.2, nextSt := s.nextSt }
 
 def World.state (w : World) : State := ⟨w.colls, w.idx, w.pipe, w.nextSt⟩
 
@@ -971,7 +1013,7 @@ def runStagesW (D : Disc) (sem : Sem) : World → List Stage → World × Option
       match s with
       | .out target => ((outStageW D sem target w).1, some e)
       | .sample loc =>
-        match subAt loc w.pipe with
+        match subAt loc w.cpipe with
         | some (.node id true _) => (if D.samplePops then w.mutate id (kdel "size") else w, some e)
         | _ => (w, some e)
       | _ => (w, some e)
